@@ -811,12 +811,18 @@ def C16(tier, seed):
                 sfx = "" if c.get("suffix") == "-" else "." + c.get("suffix", "log")
                 for q in range(2):
                     steps.append({"op": "ExtCreate", "name": f"PFX_r{hi + q:05d}{sfx}", "content": "0000001|xx\n"})
+            if i % 10 == 7:
+                # compressed files of a family without suffix whose names contain further dots (dotted basename, several
+                # rotations inside one second): the .gz names are the names of the rotated files plus ".gz"
+                c = {"naming": rng.choice(["Num", "Ts", "TsD"]), "rot": True, "size": 20, "mode": "direct", "crlf": False,
+                     "suffix": "-", "basename": rng.choice(["my.app", "app", "a.b.c"]), "m": 3, "k": rng.choice([0, 1]), "bg": False}
+                steps = []
             steps.append({"op": "Start", "append": False})
-            for _ in range(rng.choice([2, 5, 12])):
+            for _ in range(rng.choice([2, 5, 12]) if i % 10 != 7 else 10):
                 x = rng.random()
                 if x < 0.2 and c.get("rot", True):
                     steps.append({"op": "Trigger"})
-                elif x < 0.45:
+                elif x < 0.45 and i % 10 != 7:
                     steps.append({"op": "Adv", "dt": rng.choice([1, 2, 60, 3600, 86400])})
                 steps.append({"op": "Log", "len": rng.choice([9, 12, 40])})
             steps.append({"op": "Stop"})
@@ -1080,7 +1086,9 @@ def C11(tier, seed):
             steps.append({"op": "Stop"})
             if i % 4 == 1:
                 # reopen_output() (the logrotate protocol) somewhere in the history: the writer stays unbuffered
+                # (a size limit out of reach, so that the re-opened writer is not replaced by a rotation at once)
                 steps.insert(rng.randint(2, max(2, len(steps) - 3)), {"op": "Reopen"})
+                c["size"] = 4000
             base.append({"sc": len(base) + 1, "cfg": c, "t0": 1000, "steps": steps, "origin": "rand"})
         # phase 1: recording run -> number of file-system effects (= crash points) per history
         for b in base:
